@@ -135,6 +135,7 @@ impl Story {
         );
 
         self.reset_globals()?;
+        self.warn_if_ink_version_differs();
 
         Ok(())
     }
